@@ -136,9 +136,17 @@ def run_unit(name, tier):
     for f in fails:
         failed_names.setdefault(f["obligation"], []).append(f)
     obl = []
+    seen_fn = set()
     for fn in out["functions"]:
-        nm = "%s.%s.safety" % (name, fn["function"])
+        if fn.get("mode") != "exec":
+            continue  # proof/spec functions only carry the labelled clauses they contain
+        nm = "%s.%s.safety" % (name, fn["path"].split("::", 1)[-1])
+        if nm in seen_fn:
+            continue
+        seen_fn.add(nm)
         unl = [f for f in fails if f["fn"] == fn["function"] and not f["label"]]
+        if not fn["success"] and not [f for f in fails if f["fn"] == fn["function"]]:
+            unl = [{"note": "verus marked the function as failed"}]
         obl.append({"name": nm, "kind": "function body: panic-freedom, overflow, callee preconditions, "
                     "termination, unlabelled postconditions", "backend": "verus/z3",
                     "status": "failed" if unl else "discharged", "time_us": fn["time_us"], "rlimit": fn["rlimit"]})
